@@ -485,16 +485,17 @@ struct BigInt {
     SizeT32  index_{0};
 
     void copy(const BigInt &src) noexcept {
+        // Clear every word above the source's top word first (including the one right above it).
+        while (index_ > src.index_) {
+            storage_[index_] = 0;
+            --index_;
+        }
+
         SizeT32 index = 0U;
 
         while (index <= src.index_) {
             storage_[index] = src.storage_[index];
             ++index;
-        }
-
-        while (index_ > index) {
-            storage_[index_] = 0;
-            --index_;
         }
 
         index_ = src.index_;
